@@ -590,7 +590,7 @@ func TestUntrustedInputs(t *testing.T) {
 	rec := ev.Get(ID)
 	rec.SetRule(rule)
 	g := genCase(curves())
-	rec.Check(t, "untrusted", ev.N(260, 12000), func(rt *rapid.T) {
+	rec.Check(t, "untrusted", ev.N(900, 12000), func(rt *rapid.T) {
 		c := g.Draw(rt, "case")
 		rec.Begin("untrusted", c)
 		rec.Report(rt, "untrusted", c, run(c, rec))
